@@ -37,9 +37,16 @@ def pool_ports(server):
     return sorted(p for _pr, p in server.available_data_ports._queue)
 
 
+def as_configured(ports, k):
+    """The same pool handed over as a list, a tuple, a range-like iterable, a generator or a one-shot iterator:
+    data_ports is documented as an iterable, its kind must not matter."""
+    ports = list(ports)
+    return [ports, tuple(ports), iter(ports), (p for p in ports), map(int, [str(p) for p in ports]), dict.fromkeys(ports).keys()][k % 6]
+
+
 async def _history(loop, ports, faults, nsess, events, info):
     loop.net.bind_faults = {k: v for k, v in faults.items()}
-    server = aioftp.Server(path_io_factory=aioftp.MemoryPathIO, data_ports=list(ports), wait_future_timeout=2)
+    server = aioftp.Server(path_io_factory=aioftp.MemoryPathIO, data_ports=as_configured(ports, len(events) + nsess), wait_future_timeout=2)
     host = "::1" if info.get("ipv6") else HOST
     await server.start(host, PORT)
     sess = []
@@ -244,7 +251,7 @@ async def _startup(loop, how, n, passive, nports, nsess, fault_first):
     ports = PORTS[:nports]
     if fault_first:
         loop.net.bind_faults = {(ports[0], 1): errno.EADDRINUSE}
-    server = aioftp.Server(path_io_factory=aioftp.MemoryPathIO, data_ports=list(ports), wait_future_timeout=2)
+    server = aioftp.Server(path_io_factory=aioftp.MemoryPathIO, data_ports=as_configured(ports, n + nsess), wait_future_timeout=2)
     await server.start(HOST, PORT)
     raws = []
     for i in range(nsess):
